@@ -332,7 +332,7 @@ func (m *symModel) size() uint64 {
 func buildAscending(tag string, t *Mast, md *symModel, n int) []uint64 {
 	var ks []uint64
 	for i := 0; i < n; i++ {
-		k, v := verifNondetU64("k"), verifNondetU64("v")
+		k, v := verifNondetKey("k"), verifNondetVal("v")
 		if i > 0 {
 			verifAssume(ks[i-1] < k)
 		}
@@ -386,5 +386,21 @@ func checkTreeP(tag string, t *Mast, md *symModel, probe symKey) {
 	verifAssert(tag+".get-found", found == ef)
 	if found {
 		verifAssert(tag+".get-val", out == ev)
+	}
+}
+
+// checkIterP: Size and full iteration against the model; the probe lookup only when withGet.
+func checkIterP(tag string, t *Mast, md *symModel, probe symKey, withGet bool) {
+	ks, vs, err := iterAll(t)
+	verifAssert(tag+".iter-err", err == nil)
+	if err == nil {
+		verifAssert(tag+".iter-seq", verifAnd(t.Size() == md.size(), seqMatches(ks, vs, md)))
+	}
+	if withGet {
+		var out uint64
+		found, err := t.Get(vctx, probe, &out)
+		ef, ev := md.lookup(probe.id)
+		verifAssert(tag+".get-err", err == nil)
+		verifAssert(tag+".get", verifAnd(found == ef, verifOr(!ef, out == ev)))
 	}
 }
